@@ -307,6 +307,48 @@ def near_face_points():
     return out
 
 
+LADDER2 = [3e-7, 1e-6, 1e-5, 1e-4, 1e-3]
+
+
+def scale_ladder_points():
+    """Boundary coordinates moved by every decade BETWEEN the tolerance scale (PERT, <= 1e-8) and O(1): the five vertices get every scale on every
+    coordinate (sign alternating), every other named point one scale per boundary coordinate (rotating), so that each scale meets each kind of
+    boundary.  A special-case branch taken at such a distance must still be accurate to the documented tolerance."""
+    out = []
+    taken = {n for n, _ in near_face_points()}
+    for i, (name, xyz) in enumerate(weyl_points()):
+        x, y, z = xyz
+        idx = []
+        if abs(x - PI4) < 1e-12 or abs(x) < 1e-12:
+            idx.append(0)
+        if abs(x - y) < 1e-12 or abs(y) < 1e-12 or abs(y - abs(z)) < 1e-12:
+            idx.append(1)
+        if abs(z) < 1e-12 or abs(y - abs(z)) < 1e-12:
+            idx.append(2)
+        for k in sorted(set(idx)):
+            scales = list(enumerate(LADDER2)) if name.startswith('vertex:') else [((i + k) % len(LADDER2), LADDER2[(i + k) % len(LADDER2)])]
+            for j, d in scales:
+                for d in ((d, -d) if (i + j + k) % 2 == 0 else (-d, d)):          # the preferred sign, else the other one, else none: the moved point stays
+                    v = list(xyz)                                                  # canonical, so that the coefficients it was built from name its class
+                    v[k] += d
+                    if PI4 >= v[0] >= v[1] >= abs(v[2]) and (v[2] >= 0 or v[0] < PI4):
+                        if f'{name}:{"xyz"[k]}{d:+.0e}' not in taken:
+                            out.append((f'{name}:{"xyz"[k]}{d:+.0e}', tuple(v)))
+                        break
+    return out
+
+
+ISWAP_Z_CLASS = 'iswap-vertex:x=y=pi/4:1e-7<|z|<1.5e-6'
+
+
+def iswap_z_class(hint):
+    """Class of the four-FSim finding: coefficients (pi/4, pi/4, z) with 1e-7 < |z| < 1.5e-6 (the routine's `r > 0.499999999999` branch drops z there)."""
+    if hint is None:
+        return None
+    x, y, z = hint
+    return ISWAP_Z_CLASS if abs(x - PI4) <= 1e-9 and abs(y - PI4) <= 1e-9 and 1e-7 < abs(z) < 1.5e-6 else None
+
+
 def local_pair(rng, kind):
     def one():
         if kind == 'clifford':
@@ -474,6 +516,13 @@ def two_qubit_inputs(ctx, cirq, n_random, full=True):
         g = cmath.exp(1j * r.uniform(0, 2 * math.pi))
         out.append(('weyl+locals:' + name, g * local_pair(r, 'haar') @ core @ local_pair(r, 'haar'), xyz))
     out += [('struct:' + n, u, None) for n, u in real_dtype_2q()]       # real matrices handed over as float64 / int64 arrays (see `given`)
+    for k, (name, xyz) in enumerate(scale_ladder_points()):            # every decade between the tolerance scale and O(1) off the chamber boundaries
+        core = interaction_matrix(*xyz)
+        out.append(('weyl:' + name, core, xyz))
+        if full or k % 2 == 0:
+            r = name_rng('weyl+locals:' + name)
+            g = cmath.exp(1j * r.uniform(0, 2 * math.pi))
+            out.append(('weyl+locals:' + name, g * local_pair(r, 'haar') @ core @ local_pair(r, 'haar'), xyz))
     for i in range(n_random):
         r = rng.random()
         if r < 0.5:
@@ -740,8 +789,13 @@ def residual(a, b, phase):
         return float('inf')
     if phase:
         i = int(np.argmax(np.abs(b)))
+        best = float(np.max(np.abs(a - b)))
         if abs(b.flat[i]) > 1e-30:
-            b = b * (a.flat[i] / b.flat[i])
+            best = float(np.max(np.abs(a - b * (a.flat[i] / b.flat[i]))))
+        s = np.vdot(b.ravel(), a.ravel())                 # phase of the inner product: the other witness of "for some unit factor"
+        if abs(s) > 1e-9:
+            best = min(best, float(np.max(np.abs(a - b * (s / abs(s))))))
+        return best
     return float(np.max(np.abs(a - b)))
 
 
@@ -769,7 +823,8 @@ def add_ops_checks(ctx, conv, checks, routine, opts, name, u, ops, qubits, tol, 
         return
     n = len(qubits)
     ctx.count(stream, [name, rep['matrix']], nontrivial, sample=dict(input_class=name, operations=[str(o) for o in ops[:12]], n_ops=len(ops)))
-    cmpf = cmp[0] if cmp else 'reconstructs_phase_f' if phase else 'reconstructs_f'
+    # "up to global phase" = for some unit factor: the phase aligned at the largest entry or the phase of the inner product (KakCanonFloat.reconstructs_anyphase_f)
+    cmpf = cmp[0] if cmp else 'reconstructs_anyphase_f' if phase else 'reconstructs_f'
     try:
         res = residual(numpy_unitary(cirq, ops, qubits)[:, :2] if cmp else numpy_unitary(cirq, ops, qubits), u[:, :2] if cmp else u, phase)
     except Exception:
@@ -781,7 +836,7 @@ def add_ops_checks(ctx, conv, checks, routine, opts, name, u, ops, qubits, tol, 
     checks.append((stream, f'{cmpf} {fl(tol)} {gates.nlist([2] * n)} {term} {um}', what,
                    dict(rep, signature=f'{routine}:reconstruct:' + (extra or {}).get('sig_prefix', '') + scls, loose=f'{cmpf} {fl(10 * tol)} {gates.nlist([2] * n)} {term} {um}',
                         loose2=f'{cmpf} {fl(1e-6)} {gates.nlist([2] * n)} {term} {um}' if 10 * tol < 1e-6 else 'false',
-                        loose_signature=f'{routine}:reconstruct:within-10x-tolerance', **more)))
+                        loose_signature=f'{routine}:reconstruct:' + (scls if (extra or {}).get('class_first') else 'within-10x-tolerance'), **more)))
     if count is not None:
         bound, exact, native, text = count
         n2 = sum(1 for o in ops if len(o.qubits) >= 2)
@@ -903,7 +958,8 @@ def run_2q(ctx, cirq, mods, conv, checks, routine, opts, name, u, hint):
         except Exception as e:
             return raised(e)
         add_ops_checks(ctx, conv, checks, routine, opts, name, u, circ.all_operations(), q, 1e-7, False,
-                       (4, True, lambda op: op.gate == fg, f'exactly four {fname} gates'), nt, extra=dict(sig_prefix=fname + ':'))
+                       (4, True, lambda op: op.gate == fg, f'exactly four {fname} gates'), nt, extra=dict(sig_prefix='' if iswap_z_class(hint) else fname + ':', class_first=bool(iswap_z_class(hint))),
+                       sig_class=iswap_z_class(hint))
     elif routine == 'two_qubit_matrix_to_ion_operations':
         try:
             ops = cirq.two_qubit_matrix_to_ion_operations(q[0], q[1], ug, **opts)
@@ -969,7 +1025,7 @@ ROUTINES.update({
                           'Reference: the class of the canonical KAK coefficients (Xform/KakCount.v cz_class: 0 at the origin, 1 at (pi/4,0,0), 2 on the rest of the face z=0, 3 elsewhere). '
                           'The coefficients are those the corpus point was built from, or (named gates, random unitaries) those returned by kak_decomposition, whose recomposition is '
                           'validated in the same run. Tolerance: within atol/50 of a stratum (sup norm on the coefficients) only the stratum\'s count is accepted, between atol/50 and 100*atol '
-                          '(sqrt(atol) around the origin, where the routine\'s test is quadratic) either, beyond that the stratum\'s count is wrong (cz_count_ok_f).',
+                          '(sqrt(atol) around the origin and around the vertex (pi/4,0,0), where the routine\'s tests are quadratic in the coefficients) either, beyond that the stratum\'s count is wrong (cz_count_ok_f).',
     'kak_vector': 'docstring: the KAK vector of the unitary (or of each unitary of a (...,4,4) array), canonical as kak_canonicalize_vector documents (atol = "how close k_x must be to pi/4 to '
                   'guarantee k_z >= 0"). Compared with the coefficients of the validated kak_decomposition of the same unitary, or their mirror image (pi/2-x, y, -z); no tolerance on the '
                   'value stated: atol(1e-8) x 10 = 1e-7.',
@@ -1032,6 +1088,8 @@ def run_class(ctx, cirq, mods, conv, checks, routine, opts, name, u, hint, batch
             return
         lo, m = atol / 50, 100 * atol
         m0 = max(m, math.sqrt(atol))
+        if max(abs(x - PI4), abs(y), abs(z)) <= m0:
+            m = m0          # next to the vertex (pi/4,0,0) the routine's tests (a2 - 2, Im a3 = 4 s2x s2y s2z) are quadratic in (y, z), exactly as a3 -+ 4 is at the origin
         want = py_cz_class(x, y, z, lo)
         checks.append((stream, f'negb {certified} || cz_count_ok_f {fl(lo)} {fl(m0)} {fl(m)} {fl(x)} {fl(y)} {fl(z)} {int(n)}',
                        f'{stream} on {name}: returned {int(n)}, but {src} ({x!r}, {y!r}, {z!r}) put the unitary '
@@ -1662,6 +1720,50 @@ ROUTINES.update({
 })
 
 
+# Perturbation sizes BETWEEN the tolerance scale (<= 1e-7, covered by the +-1e-10..1e-7 entries of the corpus) and O(1): one or two per decade.  A routine
+# that switches to a special-case branch (axis singularity, "no X part", "close to identity", degenerate spectrum) must do so only where the branch is
+# accurate to the documented tolerance, so every decade of distance from a singular point is an input class of its own.
+LADDER = [3e-7, 1e-6, 3e-6, 1e-5, 2e-5, 1e-4, 4e-4, 1e-3, 3e-3, 1e-2, 1e-1]
+LADDER_AXES = [('x', (1, 0, 0)), ('y', (0, 1, 0)), ('z', (0, 0, 1)), ('(1,2,2)/3', (1, 2, 2)), ('(0,-1,1)/sqrt2', (0, -1, 1)), ('(3,0,-4)/5', (3, 0, -4)), ('(-2,-1,-2)/3', (-2, -1, -2))]
+LADDER_MARK = 'ladder:'
+
+
+def axis_rot(axis, t):
+    n = np.asarray(axis, dtype=float)
+    x, y, z = n / math.sqrt(float(n @ n))
+    P = np.array([[z, x - 1j * y], [x + 1j * y, -z]])
+    return math.cos(t / 2) * np.eye(2) - 1j * math.sin(t / 2) * P
+
+
+def scale_ladder_1q():
+    """Frozen single-qubit inputs at every decade of distance (3e-7 .. 1e-1) from the singular points of the single-qubit forms: rotations by
+    t0 + d about the coordinate axes and oblique axes for t0 = 0 (axis singularity of axis_angle, identity test of phxz), 2 pi (the same up to the
+    phase -1), pi (|U00| = 0: ZYZ / PhasedX singularity, angle wrap of canonicalize) and pi/2; Z Y Z products with the middle angle d or pi + d."""
+    out = []
+    for k, d in enumerate(LADDER):
+        for j, (an, ax) in enumerate(LADDER_AXES):                       # t0 = 0: every axis at every scale, the sign alternating
+            s = d if (k + j) % 2 == 0 else -d
+            out.append((f'{LADDER_MARK}rot[{an}](0{s:+.0e})', axis_rot(ax, s)))
+        for i, (tn, t0) in enumerate((('2pi', 2 * math.pi), ('pi', math.pi), ('pi/2', math.pi / 2), ('-pi', -math.pi))):
+            for j in (k + i, k + i + 3):                                 # two of the axes per (t0, scale), rotating
+                an, ax = LADDER_AXES[j % len(LADDER_AXES)]
+                s = d if (k + j) % 2 else -d
+                out.append((f'{LADDER_MARK}rot[{an}]({tn}{s:+.0e})', axis_rot(ax, t0 + s)))
+        s = d if k % 2 else -d
+        out.append((f'{LADDER_MARK}rz(0.4)*ry(0{s:+.0e})*rz(0.7)', axis_rot((0, 0, 1), 0.4) @ axis_rot((0, 1, 0), s) @ axis_rot((0, 0, 1), 0.7)))
+        out.append((f'{LADDER_MARK}rz(-1.1)*ry(pi{-s:+.0e})*rz(2.3)', axis_rot((0, 0, 1), -1.1) @ axis_rot((0, 1, 0), math.pi - s) @ axis_rot((0, 0, 1), 2.3)))
+        out.append((f'{LADDER_MARK}rz(0{s:+.0e})*rx(0{-2 * s:+.0e})', axis_rot((0, 0, 1), s) @ axis_rot((1, 0, 0), -2 * s)))
+    return out
+
+
+def random_small_rotation(rng):
+    """Seeded: a rotation by a log-uniform angle in [1e-7, 1] about a uniformly random axis, near the identity or near a Pauli-axis half turn."""
+    ax = [rng.gauss(0, 1) for _ in range(3)]
+    d = 10 ** rng.uniform(-7, 0) * rng.choice([1, -1])
+    t0n, t0 = rng.choice([('0', 0.0), ('0', 0.0), ('pi', math.pi), ('2pi', 2 * math.pi)])
+    return f'random:small-angle:{t0n}+1e{math.floor(math.log10(abs(d)))}', axis_rot(ax, t0 + d)
+
+
 def one_qubit_inputs(ctx, cirq, n_random):
     rng = ctx.rng
     out = []
@@ -1689,8 +1791,15 @@ def one_qubit_inputs(ctx, cirq, n_random):
         r = name_rng('1q:' + name)
         out.append((name + '*phase', cmath.exp(1j * r.uniform(0, 6.28)) * np.asarray(u, dtype=complex)))
     out += real_dtype_1q()                          # real matrices handed over as float64 / int64 arrays (see `given`)
+    for k, (name, u) in enumerate(scale_ladder_1q()):  # every decade between the tolerance scale and O(1) around the singular points
+        out.append((name, u))
+        if k % 2 == 0:
+            out.append((name + '*phase', cmath.exp(1j * name_rng('1q:' + name).uniform(0, 6.28)) * u))
+    out += [(REAL_DTYPE + f'{LADDER_MARK}rot({d:+.0e})', np.asarray(rot2(d), dtype=complex)) for d in (1e-6, -1e-5, 4e-4, -1e-3, 1e-2)]
     for _ in range(n_random):
         out.append(('random:haar', gates.random_unitary(rng, 2)))
+    for _ in range(max(6, n_random // 3)):
+        out.append(random_small_rotation(rng))
     for _ in range(max(2, n_random // 10)):
         out.append((REAL_DTYPE + 'random:rot', np.asarray(rot2(rng.uniform(-math.pi, math.pi)), dtype=complex)))
     return out
@@ -1897,7 +2006,8 @@ def su2(u):
 
 def linalg_stream(ctx, cirq, inputs1, inputs2, checks):
     rng = ctx.rng
-    ones = [(n, u) for n, u in inputs1 if not n.endswith('*phase')]
+    ladder = [(n, u) for n, u in inputs1 if n.startswith(LADDER_MARK)]
+    ones = [(n, u) for n, u in inputs1 if not n.endswith('*phase') and LADDER_MARK not in n and not n.startswith('random:small-angle')]
     sel = [x for k, x in enumerate(ones) if k % 5 == 0 or 'clifford' in x[0] or x[0] in ('identity', 'X', 'Y', 'Z', 'H', 'S')]
     # kron factors: pairs from the one-qubit corpus
     for k, (na, a) in enumerate(sel):
@@ -1927,6 +2037,18 @@ def linalg_stream(ctx, cirq, inputs1, inputs2, checks):
     for name, u in sel[::2]:
         run_la(ctx, cirq, checks, 'map_eigenvalues', '1q:' + name, u)
         run_la(ctx, cirq, checks, 'unitary_eig', '1q:' + name, u)
+    # every decade of distance from the identity / a half turn (near-degenerate spectra, nearly-local factors at scales between the tolerance and O(1))
+    for k, (na, a) in enumerate(ladder):
+        if k % 3 == 0:
+            run_la(ctx, cirq, checks, 'map_eigenvalues', '1q:' + na, a)
+            run_la(ctx, cirq, checks, 'unitary_eig', '1q:' + na, a)
+        if k % 4 == 0:
+            nb, b = ladder[(5 * k + 7) % len(ladder)]
+            run_la(ctx, cirq, checks, 'kron_factor_4x4_to_2x2s', f'kron({na},{nb})', np.kron(a, b))
+            run_la(ctx, cirq, checks, 'so4_to_magic_su2s', f'magic(kron(su2 {na}, su2 {nb}))', np.real(MAGIC.conj().T @ np.kron(su2(a), su2(b)) @ MAGIC))
+            run_la(ctx, cirq, checks, 'unitary_eig', f'kron({na},{nb})', np.kron(a, b))
+        if k % 6 == 0:
+            run_la(ctx, cirq, checks, 'to_special', na, a)
     # real normal matrices handed over as float64 / int64 arrays (orthogonal matrices with non-real spectrum, skew-symmetric, symmetric; sizes 1..8)
     for name, u in real_normal_inputs(rng) + real_dtype_1q() + real_dtype_2q() + real_dtype_3q():
         run_la(ctx, cirq, checks, 'map_eigenvalues', name, u)
@@ -2443,7 +2565,7 @@ def evaluate(ctx, checks, pipe=None):
             desc = desc()                              # a diagnostic that is only worth computing for a failing case
         rep = dict(rep)
         sig = rep.pop('signature')
-        rep.pop('loose', None), rep.pop('loose2', None), rep.pop('sig_prefix', None), rep.pop('alt', None)
+        rep.pop('loose', None), rep.pop('loose2', None), rep.pop('sig_prefix', None), rep.pop('alt', None), rep.pop('class_first', None)
         loose_sig = rep.pop('loose_signature', None)
         alt_sig, alt_note = rep.pop('alt_signature', None), rep.pop('alt_note', None)
         if id(c) in alt_ok:
@@ -2465,9 +2587,12 @@ def run(ctx):
                 '(diagonal, tensor products, (phased) permutations, controlled, block-diagonal; every routine on each), the known-gate grid of the Sycamore dispatch, non-sorted qubit orders, '
                 'frozen + seeded gate tabulations x (the gate of every tabulated KAK vector + the corpus), points 1e-7..5e-6 below the face x=pi/4, '
                 '29 named Weyl-chamber points (vertices, edges, faces, interior, B, sqrt-iSWAP region boundary) bare and dressed with Haar local gates and a phase, '
-                '+-{1e-10,1e-9,2e-9,1e-8} on every coordinate sitting on a boundary, degenerate spectra] + seeded random unitaries (Haar via QR, products of library gates) '
+                '+-{1e-10,1e-9,2e-9,1e-8} on every coordinate sitting on a boundary, degenerate spectra, the scale ladder: every decade 3e-7..1e-1 of distance from the singular points '
+                '(single-qubit rotations by t0+d about coordinate and oblique axes for t0 in {0, 2pi, pi, -pi, pi/2}, Z Y Z products with middle angle d / pi+d; boundary coordinates of '
+                'the Weyl-chamber points moved by 3e-7..1e-3), seeded log-uniform small-angle rotations] + seeded random unitaries (Haar via QR, products of library gates) '
                 'x option flags; non-trivial = input is not the identity; distinct by (routine, options, input matrix)')
     ctx.assumptions += ['float instance: binary64 inside vm_compute, tolerance = documented tolerance of each routine (coverage.routines)',
+                        '"up to global phase" is accepted when the comparison holds for the phase aligned at the largest entry or for the phase of the inner product (either is a witness of "for some unit factor")',
                         'operations enter the reference semantics through the shared gate vocabulary; others through cirq.unitary (counted)']
     ctx.cov['routines'] = ROUTINES
     ctx.set_obligations(coq.compile_props('C15'))
